@@ -96,6 +96,7 @@ func runXferJob(t *testing.T, j *Job, r *evid.Run, oracle oracleFn) *JobRes {
 	out.RootNOpts = root.NOpts
 	if rr, ok := root.Res.(*XferRes); ok && rr != nil {
 		out.RootOut = outcomeOf(rr, dst)
+		out.Info = rr.Counts
 	}
 	out.Execs, out.Steps = e.Execs, e.Steps
 	out.Diverged = append(out.Diverged, e.Diverged...)
